@@ -150,6 +150,10 @@ def cells(tier: str) -> dict:
             return RelCell([b, b], rg, rel, before_each=perturb(pert))
         out[name] = f
 
+    for m in (1, 2):
+        add(f"inherit[mode={m},narrow]", "inherit", f"mode={m}", emax=H)
+    add("chain[mode=2,narrow]", "chain", "mode=2", emax=H)
+    add("inherit[after_stuck,narrow]", "inherit", "after_stuck", emax=H)
     for m in (1, 2, 5):
         add(f"inherit[mode={m}]", "inherit", f"mode={m}")
     add("chain[mode=2]", "chain", "mode=2")
